@@ -1,2 +1,39 @@
-(* C06 — property theorems (being added). *)
-From Coq Require Import List ZArith.
+(* C06 — Trie Replace / ReplaceWithMask are total and rewrite exactly the matched regions.
+   Property theorems only: each is closed by [exact] of a lemma from Proofs/, with Print Assumptions beneath.
+   Scopes are [start, stop) byte intervals (Z * Z); [merge_scopes], [replace_go] are the executable model
+   (Model/Trie.v) of mergeScopes and of Replace's re-assembly loop with checked slice expressions. *)
+From Coq Require Import List ZArith Bool.
+From V Require Import Model.Trie Proofs.TrieMerge Proofs.TrieReplace.
+Import ListNotations.
+Local Open Scope Z_scope.
+
+(* mergeScopes (with the step back after a merge) terminates within its fuel on every stop-sorted list of non-empty
+   scopes and yields disjoint increasing non-empty intervals with the same covered set; every input scope lies inside
+   an output interval and every output interval contains an input scope *)
+Theorem c06_merge_spec : forall sc, stop_sorted sc -> wf sc ->
+  exists m, merge_scopes sc = Some m /\
+    disj m /\ wf m /\
+    (forall i, covered m i <-> covered sc i) /\
+    (forall o, In o sc -> exists x, In x m /\ inside o x) /\
+    (forall x, In x m -> exists o, In o sc /\ inside o x).
+Proof. exact merge_spec. Qed.
+Print Assumptions c06_merge_spec.
+
+(* Replace's loop over the merged scopes never slices out of range (no panic, no fuel exhaustion) and returns the text
+   with each merged interval replaced by one copy of repl *)
+Theorem c06_replace_total : forall text repl sc,
+  stop_sorted sc -> wf sc -> in_text (Z.of_nat (length text)) sc ->
+  exists m, merge_scopes sc = Some m /\
+    replace_go text repl 0 m [] = Some (splicez text repl 0 m) /\
+    goodz 0 (Z.of_nat (length text)) m /\
+    (forall i, covered m i <-> covered sc i) /\
+    (forall o, In o sc -> exists x, In x m /\ inside o x) /\
+    (forall x, In x m -> exists o, In o sc /\ inside o x).
+Proof. exact replace_total. Qed.
+Print Assumptions c06_replace_total.
+
+(* the splice keeps exactly the uncovered bytes, in order (what remains when the replacement is empty) *)
+Theorem c06_replace_keeps_uncovered : forall text m from, goodz from (Z.of_nat (length text)) m ->
+  splicez text [] from m = uncovered m from (skipn (Z.to_nat from) text).
+Proof. exact splice_uncovered. Qed.
+Print Assumptions c06_replace_keeps_uncovered.
